@@ -61,9 +61,12 @@ impl VIOT {
         self.checksum.append(new_len.as_bytes());
         self.checksum.add(sum);
 
-        // The header also contains a count of the number of nodes, so the
-        // sum needs an additional '1' added to it.
-        self.checksum.add(1);
+        // The header also contains a count of the number of nodes:
+        // replace the bytes of the old count by those of the new one.
+        let old_count = self.nodes.len() as u16;
+        let new_count = old_count + 1;
+        self.checksum.delete(old_count.as_bytes());
+        self.checksum.append(new_count.as_bytes());
 
         self.header.checksum = self.checksum.value();
     }
